@@ -3,6 +3,11 @@ from dataclasses import asdict, dataclass, field
 from typing import Any, Dict, Optional
 
 
+class HarnessInconclusive(Exception):
+    """Raised by a harness when the code under test has left the stand-ins' vocabulary (e.g. an SQL statement the connection model does
+    not know): the obligation is reported as inconclusive - never as discharged and never as a violation."""
+
+
 @dataclass
 class Ob:
     """One proof obligation.
